@@ -345,6 +345,12 @@ func (st *SymbolTable) DisableBuiltin(names ...string) {
 
 	for _, n := range names {
 		root.disabledBuiltins[n] = struct{}{}
+		// forget a builtin symbol cached by an earlier compilation with this
+		// table (Eval sessions, re-used tables): Resolve finds cached symbols
+		// before it consults the disabled set.
+		if s, ok := root.store[n]; ok && s.Scope == ScopeBuiltin {
+			delete(root.store, n)
+		}
 	}
 }
 
